@@ -71,6 +71,12 @@ class C12(Prop):
         res = []
         for sig, txt in obs["races"]:
             res.append((sig, "the race detector reported a data race in the shim handlers", {"report": txt}))
+        for r in obs.get("table") or []:
+            for k, o in enumerate(r.get("ops") or []):
+                if o.get("op") == "open" and not o.get("dial_ok") and (o.get("panic") or o.get("status") != 500):
+                    res.append(("open:failed-dial-not-answered-500:" + str(o.get("why")), "an open call whose dial of the backend fails (%s) %s instead of being answered 500" % (
+                        o.get("why"), "made the handler panic (in the agent: the process ends, with every session)" if o.get("panic") else "was answered %s" % o.get("status")),
+                        {"driver": "TestVerifC12Table", "history_index": r.get("index"), "call_index": k, "call": o, "ops": (r.get("ops") or [])[:k + 1]}))
         for r in obs.get("batch") or []:
             rp = {"driver": "TestVerifC12Batch: sessions A, B open and C closed; one data post naming several sessions", "observed": r}
             if r.get("error"):
